@@ -455,6 +455,9 @@ impl TransactionCoordinator {
 
             ValidationResult::Conflict(id) => {
                 self.set_transaction_state(txid, TransactionState::Aborted)?;
+                // A transaction refused at commit is rolled back like any other: its rows stay in the
+                // tables, so its id has to reach the persistent aborted set as well.
+                self.pager.write().mark_transaction_aborted(txid);
                 Err(TransactionError::WriteWriteConflict(txid, id))
             }
         }
